@@ -851,3 +851,77 @@ package stun
 //@   loop 0
 //@     invariant -1 <= rangeindex && forall(k, 0, rangeindex+1, msg.Attributes[k].Type != 0x8028)
 //@     decreases len(msg.Attributes) - rangeindex
+
+// ---- Agent (C13: transaction-table specification; C14: lock discipline) ----
+
+//@ props C14
+//@ guard Agent.mux: transactions, closed, handler
+
+// Event log (ghost): every handler invocation appends (transaction id, error, message) at index ev_n.
+//@ func Handler(h, e)
+//@   assigns ghost(ev_n), gmapa(ev_tid)[ghost(ev_n)], gmap(ev_errt)[ghost(ev_n)], gmap(ev_errv)[ghost(ev_n)], gmap(ev_msg)[ghost(ev_n)], gmap(ev_h)[ghost(ev_n)]
+//@   ensures ghost(ev_n) == old(ghost(ev_n)) + 1
+//@   ensures gmapa(ev_tid)[old(ghost(ev_n))] == e.TransactionID
+//@   ensures gmap(ev_errt)[old(ghost(ev_n))] == errtag(e.Error) && gmap(ev_errv)[old(ghost(ev_n))] == errval(e.Error)
+//@   ensures gmap(ev_msg)[old(ghost(ev_n))] == region(e.Message) && gmap(ev_h)[old(ghost(ev_n))] == h
+
+// AgentInv: the table maps every registered id to a record carrying that id.
+//@ define AgentInv(a) = a != nil && gmap(held)[region(a)] == 0 && (a.closed || region(a.transactions) != 0)
+//@   | && forallkey(k, haskey(a.transactions, k) ==> a.transactions[k].id == k)
+//@ define SameTable(a) = forallkey(k, (haskey(a.transactions, k) <==> old(haskey(a.transactions, k))) && (haskey(a.transactions, k) ==> a.transactions[k].deadline == old(a.transactions[k].deadline)))
+//@ define NoEvent() = ghost(ev_n) == old(ghost(ev_n))
+//@ define OneEvent(id, err) = ghost(ev_n) == old(ghost(ev_n)) + 1 && gmapa(ev_tid)[old(ghost(ev_n))] == id
+//@   | && gmap(ev_errt)[old(ghost(ev_n))] == errtag(err) && gmap(ev_errv)[old(ghost(ev_n))] == errval(err)
+
+//@ func (*Agent).Start
+//@   safety C13 C14
+//@   props C13 C14
+//@   requires AgentInv(a)
+//@   assigns mem(a.transactions), gmap(held)[region(a)]
+//@   ensures AgentInv(a) && NoEvent() && a.closed == old(a.closed)
+//@   ensures old(a.closed) ==> result == ErrAgentClosed && SameTable(a)
+//@   ensures !old(a.closed) && old(haskey(a.transactions, id)) ==> result == ErrTransactionExists && SameTable(a)
+//@   ensures !old(a.closed) && !old(haskey(a.transactions, id)) ==> result == nil && haskey(a.transactions, id) && a.transactions[id].deadline == deadline
+//@   ensures !old(a.closed) && !old(haskey(a.transactions, id)) ==> forallkey(k, k != id ==> ((haskey(a.transactions, k) <==> old(haskey(a.transactions, k))) && (haskey(a.transactions, k) ==> a.transactions[k].deadline == old(a.transactions[k].deadline))))
+
+//@ func (*Agent).StopWithError
+//@   safety C13 C14
+//@   props C13 C14
+//@   requires AgentInv(a) && a.closed || AgentInv(a) && a.handler != nil
+//@   assigns mem(a.transactions), gmap(held)[region(a)], ghost(ev_n), gmapa(ev_tid)[ghost(ev_n)], gmap(ev_errt)[ghost(ev_n)], gmap(ev_errv)[ghost(ev_n)], gmap(ev_msg)[ghost(ev_n)], gmap(ev_h)[ghost(ev_n)]
+//@   ensures AgentInv(a) && a.closed == old(a.closed)
+//@   ensures old(a.closed) ==> result == ErrAgentClosed && SameTable(a) && NoEvent()
+//@   ensures !old(a.closed) && !old(haskey(a.transactions, id)) ==> result == ErrTransactionNotExists && SameTable(a) && NoEvent()
+//@   ensures !old(a.closed) && old(haskey(a.transactions, id)) ==> result == nil && OneEvent(id, err) && !haskey(a.transactions, id)
+//@   ensures !old(a.closed) ==> forallkey(k, k != id ==> ((haskey(a.transactions, k) <==> old(haskey(a.transactions, k))) && (haskey(a.transactions, k) ==> a.transactions[k].deadline == old(a.transactions[k].deadline))))
+
+//@ func (*Agent).Stop
+//@   safety C13 C14
+//@   props C13 C14
+//@   requires AgentInv(a) && a.closed || AgentInv(a) && a.handler != nil
+//@   assigns mem(a.transactions), gmap(held)[region(a)], ghost(ev_n), gmapa(ev_tid)[ghost(ev_n)], gmap(ev_errt)[ghost(ev_n)], gmap(ev_errv)[ghost(ev_n)], gmap(ev_msg)[ghost(ev_n)], gmap(ev_h)[ghost(ev_n)]
+//@   ensures AgentInv(a) && a.closed == old(a.closed)
+//@   ensures old(a.closed) ==> result == ErrAgentClosed && SameTable(a) && NoEvent()
+//@   ensures !old(a.closed) && !old(haskey(a.transactions, id)) ==> result == ErrTransactionNotExists && SameTable(a) && NoEvent()
+//@   ensures !old(a.closed) && old(haskey(a.transactions, id)) ==> result == nil && OneEvent(id, ErrTransactionStopped) && !haskey(a.transactions, id)
+
+//@ func (*Agent).Process
+//@   safety C13 C14 C12
+//@   props C13 C14 C12
+//@   requires m != nil && (AgentInv(a) && a.closed || AgentInv(a) && a.handler != nil)
+//@   assigns mem(a.transactions), gmap(held)[region(a)], ghost(ev_n), gmapa(ev_tid)[ghost(ev_n)], gmap(ev_errt)[ghost(ev_n)], gmap(ev_errv)[ghost(ev_n)], gmap(ev_msg)[ghost(ev_n)], gmap(ev_h)[ghost(ev_n)]
+//@   ensures AgentInv(a) && a.closed == old(a.closed)
+//@   ensures old(a.closed) ==> result == ErrAgentClosed && SameTable(a) && NoEvent()
+//@   ensures !old(a.closed) ==> result == nil && ghost(ev_n) == old(ghost(ev_n)) + 1 && gmapa(ev_tid)[old(ghost(ev_n))] == m.TransactionID
+//@   ensures !old(a.closed) ==> gmap(ev_errt)[old(ghost(ev_n))] == 0 && gmap(ev_msg)[old(ghost(ev_n))] == region(m) && gmap(ev_h)[old(ghost(ev_n))] == old(a.handler)
+//@   ensures !old(a.closed) ==> !haskey(a.transactions, m.TransactionID)
+//@   ensures !old(a.closed) ==> forallkey(k, k != m.TransactionID ==> ((haskey(a.transactions, k) <==> old(haskey(a.transactions, k))) && (haskey(a.transactions, k) ==> a.transactions[k].deadline == old(a.transactions[k].deadline))))
+
+//@ func (*Agent).SetHandler
+//@   safety C13 C14
+//@   props C13 C14
+//@   requires AgentInv(a)
+//@   assigns a.handler, gmap(held)[region(a)]
+//@   ensures AgentInv(a) && NoEvent() && SameTable(a) && a.closed == old(a.closed)
+//@   ensures old(a.closed) ==> result == ErrAgentClosed && a.handler == old(a.handler)
+//@   ensures !old(a.closed) ==> result == nil && a.handler == h
